@@ -660,6 +660,8 @@ func runModel(ctx context.Context, w *rec.Writer, seed uint64, i int, tier strin
 	var m *scen.C18Model
 	if witness {
 		m = scen.C18Witness()
+	} else if i < 9 {
+		m = scen.C18Custom(r, i) // every hand-made shape once per run
 	} else if r.Chance(1, 2) {
 		// prefer models the validator accepts (three attempts), keep a refused one otherwise
 		for k := 0; k < 3; k++ {
@@ -669,7 +671,7 @@ func runModel(ctx context.Context, w *rec.Writer, seed uint64, i int, tier strin
 			}
 		}
 	} else {
-		m = scen.C18Custom(r)
+		m = scen.C18Custom(r, -1)
 	}
 	e, err := newEnv(ctx, m, resolver)
 	if err != nil {
